@@ -31,7 +31,7 @@ ENCODED = [
     "menelaus.data_drift.pca_cd:PCACD._jensen_shannon_distance", "menelaus.change_detection.page_hinkley:PageHinkley.update",
 ]
 BOUNDS = {
-    "quick": "window_size in {2,4}, 3 features, 1-2 retained components, both metrics, online_scaling on/off, step in {1,2}, "
+    "quick": "window_size in {2,4}, 3 features, 1-2 retained components, both metrics, online_scaling on/off, step in {1,2,3}, non-default ev_threshold, "
              "N<=4w+2 (w=2) / 2w+5 (w=4) samples of concrete placeholder rows (two data sets); divergences and hence Page-Hinkley decisions symbolic; "
              "identical-sample lemma: <=3 symbolic points, 2 bins",
     "thorough": "window_size in {2,3,4,5}, three data sets",
@@ -282,6 +282,12 @@ def jobs(tier):
                            {"w": 2, "npcs": a, "npcs_after": b, "metric": metric, "scaling": metric == "kl", "period": 1.0,
                             "seed": 1, "N": 9},
                            expect=("built", "drift", "after-drift"), opts={"validate": 1}))
+    # an evaluation step of 3 samples (window 3, sample_period 1.0): steps of 1 and 2 cannot tell `total - 1` from
+    # `total + 1` in the schedule
+    for metric, scaling in (("intersection", False), ("kl", True)):
+        out.append(Job(f"run-w3-k1-{metric}-step3", "checks.c11:body_run",
+                       {"w": 3, "npcs": 1, "metric": metric, "scaling": scaling, "period": 1.0, "seed": 1, "N": 13},
+                       expect=("built", "drift", "no-drift"), opts={"validate": 1}))
     for n in (1, 2, 3):
         out.append(Job(f"identical-n{n}", "checks.c11:body_identical", {"n": n}, expect=("lemma",)))
     return out
